@@ -18,6 +18,7 @@ Inductive err :=
 | EUnicode         (* error.PyAsn1UnicodeError family *)
 | EUnsupported     (* error.UnsupportedSubstrateError *)
 | ECrash (k: crash)
+| EUnclean         (* marker: a run touched a stream primitive that observes the end of input *)
 | EUnmodelled      (* the model declines to predict (counted and reported, never compared) *)
 | EOutOfFuel.      (* structural fuel exhausted; excluded by every theorem statement *)
 
@@ -39,7 +40,7 @@ Definition err_eqb (a b: err) : bool :=
   match a, b with
   | EUnderrun, EUnderrun | EEndOfStream, EEndOfStream | EMalformed, EMalformed
   | EConstraint, EConstraint | EUnicode, EUnicode | EUnsupported, EUnsupported
-  | EUnmodelled, EUnmodelled | EOutOfFuel, EOutOfFuel => true
+  | EUnmodelled, EUnmodelled | EOutOfFuel, EOutOfFuel | EUnclean, EUnclean => true
   | ECrash x, ECrash y => crash_eqb x y
   | _, _ => false end.
 
